@@ -144,6 +144,36 @@ def normalising_rule(ctx, rule, want_file, floor):
         raise AnalysisError(f"only {nsite} quaternion-kernel call sites found")
 
 
+def constraint_order(ctx):
+    """g_el / g_q_el select their rows as strains[self.idx_constraints] (list order); W_g_el / Wla_g_q_el address the multipliers as
+    nodalDOF_la_g[: nconstraints_gamma] (shear / dilatation) followed by the kappa ones.  The two orders agree iff the list is sorted.
+    The factory must therefore sort it (np.sort / np.unique / sorted) - or every consumer must use one order."""
+    rep = ctx.rep
+    fn = ctx.repo.get("cardillo/rods/_base.py", "make_CosseratRodConstrained")
+    C = "cardillo/rods/_base.py:make_CosseratRodConstrained"
+    defs = [n for n in ast.walk(fn) if isinstance(n, ast.Assign) and any(norm_src(t) in ("idx_constraints", "self.idx_constraints") for t in n.targets)]
+    if not defs:
+        raise AnalysisError(f"{C}: idx_constraints not found")
+    src = {norm_src(t): n for n in defs for t in n.targets}
+    root = src.get("idx_constraints")
+    uses_split = any("nconstraints_gamma" in norm_src(w) for w in ast.walk(fn) if isinstance(w, ast.Subscript))
+    uses_list_order = any(isinstance(w, ast.Subscript) and norm_src(w.slice) == "self.idx_constraints" for w in ast.walk(fn))
+    if not (uses_split and uses_list_order):
+        rep.ok("C11.R9", C, "residual rows and force directions no longer use the two different orders (premise gone; no verdict)", verdict="unknown", trivial=True)
+        return
+    call = root.value if root is not None else None
+    sorted_ = isinstance(call, ast.Call) and (dotted(call.func) or "").split(".")[-1] in ("sort", "unique", "sorted")
+    if isinstance(call, ast.Call) and (dotted(call.func) or "").split(".")[-1] in ("array", "asarray") and call.args and isinstance(call.args[0], ast.Call) \
+            and (dotted(call.args[0].func) or "").split(".")[-1] in ("sorted", "sort", "unique"):
+        sorted_ = True
+    if sorted_:
+        rep.ok("C11.R9", C, f"{norm_src(root)}: sorted, so rows of g (list order) and columns of W_g (gamma first) pair up")
+    else:
+        rep.bad("C11.R9", C, root if root is not None else fn.name, "the constraint index list is used in the order given by the caller for the rows of g / g_q, but W_g / Wla_g_q put the gamma "
+                "constraints first: for an unsorted list (e.g. [3, 0]) multiplier k acts along another constraint's force direction and W_g is not the transposed velocity "
+                "Jacobian of g_dot", f"cardillo/rods/_base.py:{(root or fn).lineno}")
+
+
 def element_index_agreement(ctx):
     """The element routines depend on the element through the reference data of that element (J[el], B_Gamma0[el], quadrature
     points, ...).  In every assembly loop `for el in range(self.nelement)` of the rod classes, `self.<X>_el(...)` must receive the
@@ -212,6 +242,8 @@ def run(ctx):
     rep.rule("C11.R3", "normalising quaternion kernels / non-normalising kinematic equation", 20)
     rep.rule("C11.R4", "q_dot / q_dot_u kernel agreement", 2)
     rep.rule("C11.R5", "mass matrix, kinetic energy and gyroscopic forces integrate the same data", 3)
+    rep.rule("C11.R9", "internally constrained rods: the constraint index list is sorted, because g lists its rows in list order while W_g / Wla_g_q put the gamma constraints first", 1)
+    constraint_order(ctx)
     rep.rule("C11.R7", "element loops: every element routine and every element index table inside `for el in range(self.nelement)` is evaluated for THAT element", 25)
     element_index_agreement(ctx)
     rep.rule("C11.R6", "rod routines never modify the (memoised) output of the interpolation kernels in place: a reported derivative is the same on every call", 30)
@@ -279,6 +311,27 @@ def run(ctx):
         if outs1 != outs2[:4]:
             rep.bad("C11.R2", C, r2, f"_deval's first four outputs {outs2[:4]} are not _eval's outputs {outs1}", f"{CR}:{r2.lineno}")
             continue
+        # slice containment: everything that influences a primal output in _eval (data and control) also influences it in _deval
+        from ..cfg import CFG as _CFG
+        from ..dataflow import ReachingDefs as _RD
+        sl = {}
+        for tag, f_, r_ in (("eval", ev, r1), ("deval", dv, r2)):
+            cfg_ = _CFG(f_)
+            rd_ = _RD(cfg_)
+            node_ = cfg_.node_of(r_)
+            for name in outs1:
+                nodes_, _ = rd_.backward_slice(node_, names={name}, control=True)
+                # only the CONDITIONS under which the output is computed are compared as text (the data flow is compared by the inlined
+                # expressions below; statement texts differ legitimately between the two kernels)
+                sl[(tag, name)] = {norm_src(n_.ast) for n_ in nodes_ if n_.ast is not None and n_ is not node_ and n_.kind == "test"}
+        for name in outs1:
+            only_eval = sorted(sl[("eval", name)] - sl[("deval", name)])
+            if only_eval:
+                rep.bad("C11.R2", C, f"slice of {name}: {only_eval[0][:100]}", f"in _eval `{name}` is computed under the condition `{only_eval[0][:100]}`" + (f" (and {len(only_eval) - 1} more)" if len(only_eval) > 1 else "")
+                        + ", which _deval does not test: the two kernels take different branches, so the derivatives _deval reports are not those of what _eval evaluates",
+                        f"{CR}:{dv.lineno}")
+            else:
+                rep.ok("C11.R2", C, f"{name}: every condition it is computed under in _eval ({len(sl[('eval', name)])}) is tested in _deval too")
         env1, env2 = _single_assign_env(ev), _single_assign_env(dv)
         for name in outs1:
             if name in env1 and name in env2:
@@ -398,6 +451,15 @@ MUTANTS += [
          new="        M_el = self.M_el(0)\n        for el in range(self.nelement):\n            # extract element degrees of freedom\n            elDOF_u = self.elDOF_u[el]\n\n            # sparse assemble element mass matrix\n            self.__M[elDOF_u, elDOF_u] = M_el", expect="C11.R7"),
     dict(id="c11-r7-2", what="rod h scatters the internal forces of the previous element", file=RODB_,
          old="            h[elDOF_u] += self.f_int_el(q[elDOF], el) - self.f_gyr_el(", new="            h[elDOF_u] += self.f_int_el(q[elDOF], el - 1) - self.f_gyr_el(", expect="C11.R7"),
+]
+MUTANTS += [
+    dict(id="c11-r9-orig", canary=True, what="constrained rod keeps the caller's order of the constraint indices (original defect)", file=RODB_,
+         old="    idx_constraints = np.unique(constraints)\n", new="    idx_constraints = np.array(constraints)\n", expect="C11.R9"),
+]
+MUTANTS += [
+    dict(id="c11-r2-seed", canary=True, what="[seeded by sub-agent] Quaternion _eval flips nodal quaternions onto the hemisphere of the first node, _deval does not", file=CR,
+         old='            p_xi = np.zeros(4, dtype=float)\n            for node in range(self.nnodes_element_r):\n                r_OP_node = qe[self.nodalDOF_element_r[node]]\n                r_OP += N[node] * r_OP_node\n                r_OP_xi += N_xi[node] * r_OP_node\n\n                p_node = qe[self.nodalDOF_element_p[node]]\n                p += N[node] * p_node\n                p_xi += N_xi[node] * p_node\n\n            # transformation matrix\n            A_IB = Exp_SO3_quat(p, normalize=True)\n\n            # dilatation and shear strains\n            B_Gamma_bar = A_IB.T @ r_OP_xi\n\n            # curvature, Rucker2018 (17)\n            B_Kappa_bar = T_SO3_quat(p, normalize=True) @ p_xi\n\n            return r_OP, A_IB, B_Gamma_bar, B_Kappa_bar\n',
+         new='            p_xi = np.zeros(4, dtype=float)\n            for node in range(self.nnodes_element_r):\n                r_OP_node = qe[self.nodalDOF_element_r[node]]\n                r_OP += N[node] * r_OP_node\n                r_OP_xi += N_xi[node] * r_OP_node\n\n                p_node = qe[self.nodalDOF_element_p[node]]\n                if p_node @ qe[self.nodalDOF_element_p[0]] < 0:\n                    p_node = -p_node\n                p += N[node] * p_node\n                p_xi += N_xi[node] * p_node\n\n            # transformation matrix\n            A_IB = Exp_SO3_quat(p, normalize=True)\n\n            # dilatation and shear strains\n            B_Gamma_bar = A_IB.T @ r_OP_xi\n\n            # curvature, Rucker2018 (17)\n            B_Kappa_bar = T_SO3_quat(p, normalize=True) @ p_xi\n\n            return r_OP, A_IB, B_Gamma_bar, B_Kappa_bar\n', expect="C11.R2"),
 ]
 NEUTRAL = [
     dict(id="c11-n-r6", what="rod r_OP_q accumulates into a private copy", file=RODB_,
